@@ -40,7 +40,18 @@ def fresher(v1, t1, v2, t2):
     return (v1 < v2 and v2 - v1 < M23) or (v1 > v2 and v1 - v2 > M23) or (t2 > t1 + 128)
 
 
+def gen_early(r):
+    """The registration request itself runs into a transport failure: no response ever arrives (an ICMP error is
+    reported for the server, or all copies time out).  The observation ends then, once, with that network error --
+    not with 'not observable', which is a statement about a response that was received."""
+    return {"early": {"how": r.choice(["icmp", "icmp", "silent"]), "at": r.choice([0.05, 0.3, 2.5]), "blockwise": r.chance(0.5),
+                      "con": r.chance(0.8), "consumer": r.choice(["callbacks", "iter", "both"])},
+            "first": {"observe": 0, "delay": 0.005}, "events": [], "consumer": {"iter": None, "callbacks": True}}
+
+
 def gen(r, tier):
+    if r.chance(0.05):
+        return gen_early(r)
     v0 = r.choice([0, 1, 5, M23 - 2, M23, M24 - 3, M24 - 1, r.randrange(0, M24)])
     first = {"observe": (None if r.chance(0.06) else v0), "delay": r.choice([0.005, 0.05, 0.2])}
     n = r.randint(3, 25) if r.chance(0.5) else r.randint(1, 6)
@@ -133,6 +144,8 @@ def systematic(tier):
 
 
 def shrink(scn):
+    if scn.get("early"):
+        return
     ev = scn["events"]
     for i in range(len(ev)):
         if ev[i]["k"] == "dup":
@@ -229,7 +242,83 @@ class NotifyServer(ScriptedEndpoint):
                     self.send(src, raw=raws[ns[e["of"]]], fate=["at", base + e["at"]])
 
 
+def execute_early(sim, scn):
+    import asyncio
+    from aiocoap import Message, GET, error
+    from aiocoap.numbers.constants import TransportTuning
+
+    loop = sim.loop
+    ea = scn["early"]
+    client = loop.run_until_complete(sim.client(common.CLIENT_IP))
+    me = sim.local_addr(client)
+    seen = []
+
+    class Mute(ScriptedEndpoint):
+        def handle(self, msg, src, data):
+            if msg is not None and 1 <= msg["code"] < 32:
+                seen.append(loop.now)
+                if ea["how"] == "icmp" and len(seen) == 1:
+                    loop.after(ea["at"], sim.net.icmp, src, self.addr, 111)
+
+    server = Mute(sim, common.PEER_IPS[0], 5683)
+    log = {"first": None, "cb": [], "err": [], "iter": [], "iter_end": None}
+    sim.probe("registration_request_fails_in_transport")
+
+    def start():
+        class Quick(TransportTuning):
+            ACK_TIMEOUT = 0.5
+            MAX_RETRANSMIT = 2
+        msg = Message(code=GET, uri="coap://[%s]/obs" % server.addr[0], observe=0, transport_tuning=Quick())
+        if not ea["con"]:
+            msg.mtype = aiocoap.NON
+        req = client.request(msg, handle_blockwise=ea["blockwise"])
+        log["req"] = req
+
+        def on_first(f):
+            log["first"] = ("cancelled", None) if f.cancelled() else (("error", f.exception()) if f.exception() is not None else ("response", f.result()))
+        req.response.add_done_callback(on_first)
+        if ea["consumer"] in ("callbacks", "both"):
+            req.observation.register_callback(lambda m: log["cb"].append(bytes(m.payload)))
+            req.observation.register_errback(lambda e: log["err"].append(e))
+        if ea["consumer"] in ("iter", "both"):
+            async def consume():
+                try:
+                    async for m in req.observation:
+                        log["iter"].append(bytes(m.payload))
+                    log["iter_end"] = ("clean", None)
+                except Exception as e:
+                    log["iter_end"] = ("raised", e)
+            log["task"] = loop.create_task(consume())
+    import aiocoap
+    loop.at(0.0, start)
+    sim.run(horizon=400.0)
+    sim.nontrivial = True
+    ident = dict(ea)
+    if not ea["con"] and ea["how"] == "silent":
+        return  # (a non-confirmable request nobody answers just stays open: nothing ever fails)
+    if log["first"] is None:
+        sim.violation("C07/request-never-completed", ident)
+        return
+    if log["first"][0] != "error" or not isinstance(log["first"][1], error.NetworkError):
+        sim.violation("C07/network-error-not-signalled", dict(ident, first=repr(log["first"][1])[:100], where="response"))
+    if ea["consumer"] in ("callbacks", "both"):
+        if log["cb"]:
+            sim.violation("C07/delivery-after-end", dict(ident, n=len(log["cb"])))
+        if len(log["err"]) != 1 or not isinstance(log["err"][0], error.NetworkError):
+            sim.violation("C07/network-error-not-signalled", dict(ident, errors=[repr(e)[:80] for e in log["err"]], where="errback"))
+    if ea["consumer"] in ("iter", "both"):
+        if log["iter_end"] is None:
+            sim.violation("C07/iterator-never-ends", ident)
+        elif log["iter_end"][0] != "raised" or not isinstance(log["iter_end"][1], error.NetworkError):
+            sim.violation("C07/network-error-not-signalled", dict(ident, iteration=log["iter_end"][0], exc=repr(log["iter_end"][1])[:80],
+                                                                 where="iteration"))
+    for (t, m, en, es) in sim.loop_exceptions():
+        sim.anomaly("loop-exception:%s" % en, "%s %s" % (m, es))
+
+
 def execute(sim, scn):
+    if scn.get("early"):
+        return execute_early(sim, scn)
     import asyncio
     from aiocoap import Message, GET, error
 
